@@ -1214,6 +1214,10 @@ def special_c13(prop, tier, seed, bins, out, problems):
                 # (not on the wrapper over an iterator, which reserves what is requested: F14)
                 p = c["progs"][rt.below(len(c["progs"]))]
                 p.insert(rt.below(len(p) + 1), "chunk:%d:%d" % (big, rt.choice([0, 1, 9])))
+        elif rt.chance(1, 8):
+            # a chunk pull of size zero through the adaptor
+            p = c["progs"][rt.below(len(c["progs"]))]
+            p.insert(rt.below(len(p) + 1), "chunk:0:%d" % rt.choice([0, 1]))
     if "twin" in ONLY:
         cases = [ONLY["twin"]]
     text = "".join(gen_cases.fmt_case(c) for c in cases)
